@@ -5,6 +5,7 @@ package main
 import (
 	"fmt"
 	"go/constant"
+	"go/token"
 	"go/types"
 	"math/big"
 	"strings"
@@ -153,6 +154,17 @@ func (ev *Eval) eval(e *Expr) *Value {
 			}
 			return sliceValue(x.T, x.sArr(), Add(x.sOff(), lo), Sub(hi, lo), Sub(x.sCap(), lo))
 		}
+		if isString(x.T) {
+			// the same uninterpreted substring term the engine uses for s[lo:hi]
+			sl := App("slen", SInt, x.term())
+			hi := sl
+			if e.Args[2] != nil {
+				hi = ev.intExpr(e.Args[2])
+			}
+			r := App("str.sub", SStr, x.term(), lo, hi)
+			addFact(r, Eq(App("slen", SInt, r), Sub(hi, lo)))
+			return scalar(x.T, r)
+		}
 		ev.fail("slice expression on %s", x.T)
 	case "forall", "exists":
 		return ev.quant(e)
@@ -264,8 +276,8 @@ func (ev *Eval) binary(e *Expr) *Value {
 			return scalar(specInt, EDiv(x, Pow2(uint(y.ival.Int64()))))
 		}
 	case "&", "|", "^":
-		name := map[string]string{"&": "bvand", "|": "bvor", "^": "bvxor"}[op]
-		return scalar(specInt, App(name, SInt, x, y))
+		tk := map[string]token.Token{"&": token.AND, "|": token.OR, "^": token.XOR}[op]
+		return scalar(specInt, bitopTerm(tk, x, y, types.Typ[types.Uint64]))
 	}
 	ev.fail("unsupported operator %s in %q", op, e.Text)
 	return nil
@@ -408,6 +420,14 @@ func (ev *Eval) resolveGoType(name string) types.Type {
 func (ev *Eval) ident(name string) *Value {
 	if v, ok := ev.bound[name]; ok {
 		return v
+	}
+	// old(x) for a variable captured by reference: its value in the entry state
+	if ev.inOld && ev.old != nil && ev.v.topClo != nil && ev.fn == ev.v.top && ev.fn != nil {
+		for i, fv := range ev.fn.FreeVars {
+			if fv.Name() == name && i < len(ev.v.topClo.Binds) {
+				return ev.old.loadPtr(ev.v.topClo.Binds[i].term(), fv.Type().(*types.Pointer).Elem())
+			}
+		}
 	}
 	if v, ok := ev.env[name]; ok {
 		return v
